@@ -3726,7 +3726,8 @@ static Token *function(Token *tok, Type *basety, VarAttr *attr) {
     // [https://www.sigbus.info/n1570#6.7.4p7] A definition is an inline
     // definition only if every file scope declaration of the function
     // says "inline" without "extern". Otherwise it is an external one.
-    if (fn->is_inline_only && !attr->is_static &&
+    // A declaration inside a function body does not count.
+    if (fn->is_inline_only && !scope->next && !attr->is_static &&
         !(attr->is_inline && !attr->is_extern)) {
       fn->is_inline_only = false;
       fn->is_static = false;
